@@ -5,6 +5,21 @@ ROOT = os.path.dirname(os.path.dirname(os.path.abspath(__file__)))
 
 TECH = "deterministic simulation with fault injection: "
 CHECKS = {
+ "C01": dict(
+   text="Lock-step refinement of the real Z80 core against an independent reference CPU (RefZ80) under seeded instruction streams: program runs (hidden MEMPTR/Q state carried across instructions) and stratified state sweeps over all 7 encoding pages x 256 opcodes; every instruction's registers, hidden state and ordered bus value history are compared. No schedule or fault dimension exists in this property; it is decided by the reference-model half of the technique. Sampling, not proof.",
+   note="Truth is RefZ80 (zxref::z80), written from documentation and validated by ZEXALL and its cycle-sum self-check; listed don't-cares are truncated and counted; Q after a repeating block iteration is unobservable and not compared.",
+   technique=TECH+"seeded lock-step refinement of the real CPU against an executable reference model, single-instruction replay files",
+   ref="5 (C01)"),
+ "C02": dict(
+   text="Seeded search over INT-level / NMI-edge schedules (keyed by sampling opportunity), IM-2 bus bytes and instruction streams biased to EI/DI/HALT/RETN/prefix chains; lock-step refinement against RefZ80 plus independent history monitors over the implementation's own bus log (acceptance only when allowed, pushed PC, vector, HALT idling, RETN). Sampling, not proof.",
+   note="Truth is RefZ80 plus the monitors; divergences are attributed to C02 only when they involve the lines, a control instruction or a sampling decision (others are C01's); NMI directly after EI/DI is inhibited in both models.",
+   technique=TECH+"seeded interrupt-line schedules on a simulated Z80 bus, refinement + history monitors",
+   ref="5 (C02)"),
+ "C03": dict(
+   text="The same simulated runs as C01/C02 with the full timed bus-cycle list of every instruction, repeat iteration and interrupt entry compared with RefZ80's cycle script (cycle kinds, lengths and the address carried by every delay T-state). Reported only when the value history agrees (else it is C01/C02's). Sampling, not proof.",
+   note="Truth is RefZ80's cycle scripts (DESIGN appendix A), cross-checked against a static T-state table; in interrupt-entry steps only the total acknowledge overhead is compared, not its position relative to the pushes.",
+   technique=TECH+"recorded bus-cycle histories of the real CPU checked against reference cycle scripts",
+   ref="5 (C03)"),
  "C12": dict(
    text="Seeded search over deck-command histories on the real Tap state machine: commands (play/stop/rewind) are injected at arbitrary waveform phases while simulated time advances in 1..16 T bus-wait steps; the recorded EAR edge history is decoded by an independent ROM-like decoder and compared with the tape's block list. Sampling, not proof.",
    note="Trusts the RefTape decoder (zxref::tape) and can_fast_load() as the 'deck stopped' indicator; tapes are well-formed with blocks of 2..302 bytes; component level (Tap driven directly), system-level ROM loads are covered by C11.",
